@@ -95,13 +95,15 @@ func ReadPacket(r *bufio.Reader, channelConfig []int) (*Packet, error) {
 			p.Channel = byte(i)
 			if p.Channel == ChannelVideo || p.Channel == ChannelAudio {
 				if err = p.Header.Unmarshal(p.Data); err != nil {
-					return nil, err
+					// 整帧已读完，连接仍然同步：连同包一起返回，由调用者决定丢弃这一帧
+					return p, err
 				}
 			}
 			return p, nil
 		}
 	}
-	return nil, errors.New("RTP Packet illegal channel")
+	// 未协商的通道：整帧已读完，连同包一起返回，调用者丢弃这一帧即可
+	return p, errors.New("RTP Packet illegal channel")
 }
 
 // Write 根据规范将 RTP 包输出到 w
